@@ -279,8 +279,10 @@ impl Walrus {
                 // in-memory progress is not written here (only never overwritten with 0).
                 let write_init = init_off == 0
                     || matches!(self.read_consistency, ReadConsistency::StrictlyAtOnce);
-                if checkpoint {
-                    if self.should_persist(&mut info, true) && write_init {
+                // (Nor is the read counter restarted then: restarting it on every call would
+                // keep read_next on the tail from ever reaching persist_every.)
+                if checkpoint && write_init {
+                    if self.should_persist(&mut info, true) {
                         if let Ok(mut idx_guard) = self.read_offset_index.write() {
                             let _ = idx_guard.set(
                                 col_name.to_string(),
